@@ -1,5 +1,6 @@
 (* CmdParseP.v -- proofs about Model/CmdParse.v, part 1: strings, getopt on rendered command
-   lines, purity of parse.  Part 2 (values, precedence, rejection) is CmdParseR.v *)
+   lines, purity of parse.  Part 2 (values, precedence, rejection) is CmdParseR.v, part 3 (the two passes
+   over the command line: options before the sub-command name, Command.parse_execute) is CmdParseS.v *)
 From DoitV Require Import Base CmdParse.
 Arguments str2type conv o v : simpl never.
 Arguments validate_choice o v : simpl never.
